@@ -89,9 +89,11 @@ structure Pairing where
   paired leaves, and explicit C padding members mirrored by a Go `_` field. Every byte of such a
   leaf must be covered by a paired C leaf or by a blank Go leaf. -/
   cAlt : List Name
-  /-- the Go value itself is marshalled by cilium/ebpf (`sysenc.Marshal` = encoding/binary layout),
-  so the packed layout must agree with C as well. -/
-  wire : Bool
+  /-- hand-written production code hands values of this type to cilium/ebpf (`PARAM` through
+  `VariableSpec.Set`, `_bpfLpmKey` through `newLpmMap`): the encoding/binary layout MUST agree with C
+  whether or not the memory layout happens to. For every other type the packed obligation is derived
+  (`wireExact`). -/
+  marshalled : Bool := false
   /-- a hand-written type of the REAL build (`bpf_utils.go`), required to agree on every GOARCH -/
   real : Bool := false
 deriving Repr
@@ -160,61 +162,59 @@ def daeParamFieldsC : List Name :=
    n!"padding_after_mac", n!"use_redirect_peer", n!"has_bpf_get_current_task", n!"padding2", n!"dae_socket_mark"]
 
 def pairing : List Pairing := [
-  { c := n!"tuples_key", go := n!"stub.bpfTuplesKey", wire := true,
+  { c := n!"tuples_key", go := n!"stub.bpfTuplesKey",
     fields := [(n!"Sip.U6Addr8", n!"sip.u6_addr8"), (n!"Dip.U6Addr8", n!"dip.u6_addr8"), (n!"Sport", n!"sport"),
                (n!"Dport", n!"dport"), (n!"L4proto", n!"l4proto")],
     cAlt := ip6Alt n!"sip" ++ ip6Alt n!"dip" },
-  { c := n!"redirect_tuple", go := n!"stub.bpfRedirectTuple", wire := true,
+  { c := n!"redirect_tuple", go := n!"stub.bpfRedirectTuple",
     fields := [(n!"Sip.U6Addr8", n!"sip.u6_addr8"), (n!"Dip.U6Addr8", n!"dip.u6_addr8")],
     cAlt := ip6Alt n!"sip" ++ ip6Alt n!"dip" },
-  { c := n!"redirect_entry", go := n!"stub.bpfRedirectEntry", wire := false,
+  { c := n!"redirect_entry", go := n!"stub.bpfRedirectEntry",
     fields := [(n!"Ifindex", n!"ifindex"), (n!"Smac", n!"smac"), (n!"Dmac", n!"dmac"), (n!"FromWan", n!"from_wan"),
                (n!"Padding", n!"padding"), (n!"LastSeenNs", n!"last_seen_ns")],
     cAlt := [] },
-  { c := n!"routing_result", go := n!"stub.bpfRoutingResult", wire := false,
+  { c := n!"routing_result", go := n!"stub.bpfRoutingResult",
     fields := routingResultFields, cAlt := [] },
-  { c := n!"routing_result", go := n!"real.bpfRoutingResult", wire := false, real := true,
+  { c := n!"routing_result", go := n!"real.bpfRoutingResult", real := true,
     fields := routingResultFields, cAlt := [] },
-  { c := n!"routing_handoff_entry", go := n!"stub.bpfRoutingHandoffEntry", wire := false,
+  { c := n!"routing_handoff_entry", go := n!"stub.bpfRoutingHandoffEntry",
     fields := (n!"LastSeenNs", n!"last_seen_ns") :: routingResultFields.map (fun f => (nameCat n!"Result." f.1, nameCat n!"result." f.2)),
     cAlt := [] },
-  { c := n!"dae_param", go := n!"stub.bpfDaeParam", wire := true,
+  { c := n!"dae_param", go := n!"stub.bpfDaeParam",
     fields := [(n!"TproxyPort", n!"tproxy_port"), (n!"ControlPlanePid", n!"control_plane_pid"),
                (n!"Dae0Ifindex", n!"dae0_ifindex"), (n!"DaeNetnsId", n!"dae_netns_id"), (n!"Dae0peerMac", n!"dae0peer_mac"),
                (n!"PaddingAfterMac", n!"padding_after_mac"), (n!"UseRedirectPeer", n!"use_redirect_peer"),
                (n!"HasBpfGetCurrentTask", n!"has_bpf_get_current_task"), (n!"Padding2", n!"padding2"),
                (n!"DaeSocketMark", n!"dae_socket_mark")],
     cAlt := [] },
-  { c := n!"dae_param", go := n!"real.PARAM", wire := true, real := true,
-    fields := [(n!"tproxyPort", n!"tproxy_port"), (n!"controlPlanePid", n!"control_plane_pid"),
-               (n!"dae0Ifindex", n!"dae0_ifindex"), (n!"daeNetnsId", n!"dae_netns_id"), (n!"dae0peerMac", n!"dae0peer_mac"),
-               (n!"paddingAfterMac", n!"padding_after_mac"), (n!"useRedirectPeer", n!"use_redirect_peer"),
-               (n!"hasBpfGetCurrentTask", n!"has_bpf_get_current_task"), (n!"padding2", n!"padding2"),
-               (n!"daeSocketMark", n!"dae_socket_mark")],
+  -- the literal's fields are unexported and marshalled BY POSITION: the i-th Go field mirrors the
+  -- i-th member of `struct dae_param`, whatever it is called
+  { c := n!"dae_param", go := n!"real.PARAM", real := true, marshalled := true,
+    fields := (((findRec n!"real.PARAM" Gen.goPacked).map (fun r => r.leaves.map (·.path))).getD []).zip daeParamFieldsC,
     cAlt := [] },
-  { c := n!"lpm_key", go := n!"stub._bpfLpmKey", wire := true,
+  { c := n!"lpm_key", go := n!"stub._bpfLpmKey",
     fields := [(n!"PrefixLen", n!"prefixlen"), (n!"Data", n!"data")], cAlt := [] },
-  { c := n!"lpm_key", go := n!"real._bpfLpmKey", wire := true, real := true,
+  { c := n!"lpm_key", go := n!"real._bpfLpmKey", real := true, marshalled := true,
     fields := [(n!"PrefixLen", n!"prefixlen"), (n!"Data", n!"data")], cAlt := [] },
-  { c := n!"port_range", go := n!"stub.bpfPortRange", wire := true,
+  { c := n!"port_range", go := n!"stub.bpfPortRange",
     fields := [(n!"PortStart", n!"port_start"), (n!"PortEnd", n!"port_end")], cAlt := [] },
-  { c := n!"match_set", go := n!"stub.bpfMatchSet", wire := true,
+  { c := n!"match_set", go := n!"stub.bpfMatchSet",
     fields := [(n!"Value", n!"__value"), (n!"Not", n!"not"), (n!"Type", n!"type"), (n!"Outbound", n!"outbound"),
                (n!"Must", n!"must"), (n!"Mark", n!"mark")],
     cAlt := [n!"index", n!"port_range.port_start", n!"port_range.port_end", n!"l4proto_type", n!"ip_version",
              n!"pname", n!"dscp"] },
-  { c := n!"domain_routing", go := n!"stub.bpfDomainRouting", wire := true,
+  { c := n!"domain_routing", go := n!"stub.bpfDomainRouting",
     fields := [(n!"Bitmap", n!"bitmap")], cAlt := [] },
-  { c := n!"pid_pname", go := n!"stub.bpfPidPname", wire := false,
+  { c := n!"pid_pname", go := n!"stub.bpfPidPname",
     fields := [(n!"LastSeenNs", n!"last_seen_ns"), (n!"Pid", n!"pid"), (n!"Pname", n!"pname")], cAlt := [] },
-  { c := n!"conn_state", go := n!"stub.bpfConnState", wire := false,
+  { c := n!"conn_state", go := n!"stub.bpfConnState",
     fields := [(n!"IsWanIngressDirection", n!"is_wan_ingress_direction"), (n!"State", n!"state"),
                (n!"LastSeenNs", n!"last_seen_ns"), (n!"Meta.Data.Mark", n!"meta.data.mark"),
                (n!"Meta.Data.Outbound", n!"meta.data.outbound"), (n!"Meta.Data.Must", n!"meta.data.must"),
                (n!"Meta.Data.Dscp", n!"meta.data.dscp"), (n!"Meta.Data.HasRouting", n!"meta.data.has_routing"),
                (n!"Mac", n!"mac"), (n!"Pname", n!"pname"), (n!"Pid", n!"pid")],
     cAlt := [n!"meta.raw", n!"padding"] },
-  { c := n!"dae_event", go := n!"stub.bpfDaeEvent", wire := true,
+  { c := n!"dae_event", go := n!"stub.bpfDaeEvent",
     fields := [(n!"Timestamp", n!"timestamp"), (n!"Type", n!"type"), (n!"Pid", n!"pid"), (n!"Pname", n!"pname"),
                (n!"Outbound", n!"outbound"), (n!"L4proto", n!"l4proto"), (n!"Pad", n!"pad"), (n!"Sip", n!"sip"),
                (n!"Dip", n!"dip"), (n!"Sport", n!"sport"), (n!"Dport", n!"dport")],
@@ -237,11 +237,23 @@ def archesAll : List Name := arches64 ++ [n!"386", n!"arm", n!"mipsle", n!"mips"
 stub types on the 64-bit ones. -/
 def Pairing.arches (p : Pairing) : List Name := if p.real then archesAll else arches64
 
-/-- Every layout obligation: (pairing, arch) with `n!"packed"` for wire types that have no implicit
-padding on the Go side.  `wire` stub types with implicit Go padding cannot exist: the packed check is
-required of every `wire` pairing. -/
+def recSizeOf (recs : List Rec) (r : Name) : Option Nat := (findRec r recs).map (·.size)
+
+/-- Model of cilium/ebpf v0.20 `sysenc.Marshal/Unmarshal` for a struct value: the backing memory is
+used iff `binary.Size` = `unsafe.Sizeof` (no implicit padding) and there are no unexported fields,
+otherwise `encoding/binary` packs the fields; either way the bytes exchanged are the packed layout,
+and the call fails unless the packed size equals the map's key/value size.  So a Go type CAN be
+exchanged with the kernel iff its packed layout agrees with the C record; for a type without
+implicit padding (`wireExact`) that is the memory layout as well. -/
+def wireExact (p : Pairing) : Bool :=
+  match recSizeOf Gen.goPacked p.go, recSizeOf (goRecsFor n!"amd64") p.go with
+  | some a, some b => a == b
+  | _, _ => false
+
+/-- Every layout obligation: (pairing, arch), plus `n!"packed"` for every type without implicit
+padding and for the hand-written production types that are marshalled. -/
 def layoutObligations : List (Pairing × Name) :=
-  pairing.flatMap (fun p => (p.arches.map (fun a => (p, a))) ++ (if p.wire then [(p, n!"packed")] else []))
+  pairing.flatMap (fun p => (p.arches.map (fun a => (p, a))) ++ (if wireExact p || p.marshalled then [(p, n!"packed")] else []))
 
 /-! ### Maps -/
 
@@ -256,34 +268,42 @@ def mapOk (m : CMap) : Bool :=
   !nameMem m.name Gen.goMapTags || nameMem m.name handleOnlyMaps ||
     ((nameEq m.keyRec n!"" || isPairedC m.keyRec) && (nameEq m.valRec n!"" || isPairedC m.valRec))
 
-/-- Key/value widths the control plane uses for maps with scalar (or non-struct) keys/values:
-(map, key bytes, value bytes; 0 = not used / not applicable). Hand-written from the Go call sites
-(`Update(uint32, uint32)` for connectivity, `Update(ParamKey, uint64)` for listen sockets,
-`[4]uint32` domain keys, `_bpfLpmKey` LPM keys with `uint32` values, `uint32` LPM array index). -/
-def goScalarIO : List (Name × Nat × Nat) := [
-  (n!"outbound_connectivity_map", 4, 4),
-  (n!"listen_socket_map", 4, 8),
-  (n!"routing_map", 4, 0),
-  (n!"routing_meta_map", 4, 4),
-  (n!"bpf_stats_map", 4, 8),
-  (n!"cookie_pid_map", 8, 0),
-  (n!"domain_routing_map", 16, 0),
-  (n!"unused_lpm_type", 20, 4),
-  (n!"lpm_array_map", 4, 0),
-  (n!"fast_sock", 0, 8)]
+/-- Go struct types the control plane hands to cilium although they have implicit padding, i.e.
+cannot be exchanged as declared (sysenc would fail with a size error). They are the stub build's
+stand-ins for bpf2go output, which carries explicit `_ [N]byte` pads at those places; the stub build
+never loads a BPF object. Hand-written; `exchanged_types_wire_exact_partial` proves that every
+OTHER exchanged type is wire exact and that each of these is really exchanged and really padded. -/
+def stubPaddedStandIns : List Name :=
+  [n!"stub.bpfRedirectEntry", n!"stub.bpfPidPname", n!"stub.bpfRoutingHandoffEntry", n!"stub.bpfConnState"]
 
-def scalarIOOk (x : Name × Nat × Nat) : Bool :=
-  match findMap x.1 Gen.cMaps with
-  | some m => (x.2.1 == 0 || m.keySize == x.2.1) && (x.2.2 == 0 || m.valSize == x.2.2)
+/-- One regenerated map I/O site: the Go type handed over is THE type paired with the C key/value
+record of that map (not merely one of the same size); a non-struct argument has the C size and the C
+side is not a record; an argument of unknown type is tolerated only where C declares no size
+(map-in-map values); constant co-arguments are judged by `constKeyOk`. -/
+def mapIOOk (c : MapIO) : Bool :=
+  match findMap c.map Gen.cMaps with
   | none => false
-
-/-- one regenerated call site `<map>.Update/Lookup/Delete(key, value)`: when the static type of the
-key (argument 0) / value (argument 1) is plain data, its size is the C map's key / value size. -/
-def mapCallOk (c : Name × Name × Nat × Nat × String × String) : Bool :=
-  match findMap c.1 Gen.cMaps with
   | some m =>
-    c.2.2.2.1 == 0 || (if c.2.2.1 == 0 then m.keySize == c.2.2.2.1 else m.valSize == c.2.2.2.1)
-  | none => false
+    -- `unused_lpm_type` declares its key by size only (`key_size = sizeof(struct lpm_key)`); that the
+    -- size is the record's is part of `keyModelsFollowLayout`
+    let cRec := if c.role == 0 then (if nameEq c.map n!"unused_lpm_type" then n!"lpm_key" else m.keyRec) else m.valRec
+    let cSize := if c.role == 0 then m.keySize else m.valSize
+    if c.size == 0 && nameEq c.typeName n!"" && c.const ≥ 0 then true
+    else if !nameEq c.typeName n!"" then
+      !nameEq cRec n!"" && pairing.any (fun p => nameEq p.c cRec && nameEq p.go c.typeName)
+    else if c.size == 0 then cSize == 0
+    else nameEq cRec n!"" && c.size == cSize
+
+def mapIOProblem (c : MapIO) : String :=
+  let m := findMap c.map Gen.cMaps
+  s!"{nameStr c.map} {if c.role == 0 then "key" else "value"}: Go passes `{c.what}` ({nameStr c.typeName}, {c.size} bytes) at {c.at_}; C declares key `{(m.map (·.keyType)).getD "?"}`/{(m.map (·.keySize)).getD 0} value `{(m.map (·.valType)).getD "?"}`/{(m.map (·.valSize)).getD 0}"
+
+/-- Go struct types that are handed to a map somewhere (regenerated). -/
+def exchangedTypes : List Name :=
+  (Gen.goMapIO.filter (fun c => !nameEq c.typeName n!"")).map (·.typeName)
+
+def packedOkFor (t : Name) : Bool :=
+  pairing.any (fun p => nameEq p.go t && pairOk Gen.cRecs Gen.goPacked p)
 
 /-! ### Constants -/
 
@@ -372,7 +392,10 @@ def fixedConstPairs : List (Name × Name) := [
   -- conn_state_map idle limits: `tcp_conn_state_expired` (kernel, deletes on lookup) and
   -- `cleanupConnStateMap` (control-plane janitor) judge the same `last_seen_ns` of the same entries
   (n!"control.tcpConnStateTimeoutEstablished", n!"TCP_CONN_STATE_ESTABLISHED_TIMEOUT_NS"),
-  (n!"control.tcpConnStateTimeoutClosing", n!"TCP_CONN_STATE_CLOSING_TIMEOUT_NS")]
+  (n!"control.tcpConnStateTimeoutClosing", n!"TCP_CONN_STATE_CLOSING_TIMEOUT_NS"),
+  -- idle limit of a non-DNS UDP conn_state entry: `udp_conn_state_expired` (kernel) and the janitor's
+  -- `normalTimeoutNano := QuicNatTimeout.Nanoseconds()` (control_plane.go, cleanupConnStateMap)
+  (n!"control.QuicNatTimeout", n!"UDP_CONN_STATE_TIMEOUT_NS")]
 
 def constPairOk (x : Name × Name) : Bool :=
   match lookupConst x.1 Gen.goConsts, lookupConst x.2 Gen.cConsts with
@@ -385,43 +408,203 @@ def constPairProblem (x : Name × Name) : List String :=
   | none, _ => [s!"Go constant {nameStr x.1} not found"]
   | _, none => [s!"C constant {nameStr x.2} not found"]
 
-def goConstNat (n : Name) : Nat := ((lookupConst n Gen.goConsts).getD (-1)).toNat
-def cConstNat (n : Name) : Nat := ((lookupConst n Gen.cConsts).getD (-1)).toNat
+/-- value of a Go / C constant of the regenerated tables; `none` when the name does not exist (or is
+negative): a vanished name makes the obligation FAIL, it is never read as 0 -/
+def goC? (n : Name) : Option Nat :=
+  match lookupConst n Gen.goConsts with
+  | some v => if v < 0 then none else some v.toNat
+  | none => none
+def cC? (n : Name) : Option Nat :=
+  match lookupConst n Gen.cConsts with
+  | some v => if v < 0 then none else some v.toNat
+  | none => none
 
-def leafCount (recs : List Rec) (r l : Name) : Nat :=
+def leafCount? (recs : List Rec) (r l : Name) : Option Nat :=
   match findRec r recs with
-  | some rc => match findLeaf l rc.leaves with | some lf => lf.count | none => 0
-  | none => 0
+  | some rc => (findLeaf l rc.leaves).map (·.count)
+  | none => none
 
-def mapMaxEntries (n : Name) : Nat := match findMap n Gen.cMaps with | some m => m.maxEntries | none => 0
+def mapMax? (n : Name) : Option Nat := (findMap n Gen.cMaps).map (·.maxEntries)
 
-/-- Limits that tie constants to array lengths and map sizes (name, holds). -/
-def limitChecks : List (String × Bool) := [
-  ("domain bitmap words * 32 = MaxMatchSetLen (Go) = MAX_MATCH_SET_LEN (C)",
-    leafCount Gen.cRecs n!"domain_routing" n!"bitmap" * 32 == goConstNat n!"consts.MaxMatchSetLen"
-    && leafCount (goRecsFor n!"amd64") n!"stub.bpfDomainRouting" n!"Bitmap" * 32 == cConstNat n!"MAX_MATCH_SET_LEN"),
-  ("routing_map holds MaxMatchSetLen entries", mapMaxEntries n!"routing_map" == goConstNat n!"consts.MaxMatchSetLen"),
-  ("lpm_array_map holds at least MaxMatchSetLen tries (Go allocates index % MaxMatchSetLen)",
-    goConstNat n!"consts.MaxMatchSetLen" ≤ mapMaxEntries n!"lpm_array_map" && 0 < goConstNat n!"consts.MaxMatchSetLen"),
-  ("outbound_connectivity_map holds 256 * slotsPerOutbound slots",
-    mapMaxEntries n!"outbound_connectivity_map" == 256 * goConstNat n!"control.outboundConnectivitySlotsPerOutbound"),
-  ("slotsPerOutbound = 3 * slotsPerDomain",
-    goConstNat n!"control.outboundConnectivitySlotsPerOutbound" == 3 * goConstNat n!"control.outboundConnectivitySlotsPerDomain"),
-  ("TaskCommLen = length of every pname member",
-    leafCount Gen.cRecs n!"routing_result" n!"pname" == goConstNat n!"consts.TaskCommLen"
-    && leafCount Gen.cRecs n!"conn_state" n!"pname" == goConstNat n!"consts.TaskCommLen"
-    && leafCount Gen.cRecs n!"pid_pname" n!"pname" == goConstNat n!"consts.TaskCommLen"
-    && leafCount Gen.cRecs n!"match_set" n!"pname" * 4 == goConstNat n!"consts.TaskCommLen"),
-  ("conn_state_map default size", mapMaxEntries n!"conn_state_map" == goConstNat n!"control.defaultConnStateMapMaxEntries"),
-  ("fast_sock placeholder size", mapMaxEntries n!"fast_sock" == goConstNat n!"control.fastSockPlaceholderMaxEntries"),
-  ("listen_socket_map holds the three listener keys",
-    goConstNat n!"consts.ZeroKey" < mapMaxEntries n!"listen_socket_map"
-    && goConstNat n!"consts.OneKey" < mapMaxEntries n!"listen_socket_map"
-    && goConstNat n!"consts.TwoKey" < mapMaxEntries n!"listen_socket_map"),
-  ("user-defined outbound ids fit below the reserved ones",
-    goConstNat n!"consts.OutboundUserDefinedMax" + 1 == cConstNat n!"OUTBOUND_MUST_RULES"
-    && goConstNat n!"consts.OutboundUserDefinedMin" == cConstNat n!"OUTBOUND_BLOCK" + 1)
+/-- Limits that tie constants to array lengths and map sizes (description, verdict); `none` = a name
+used by the check no longer exists. -/
+def limitChecks : List (String × Option Bool) := [
+  ("domain bitmap words * 32 = MaxMatchSetLen (Go) = MAX_MATCH_SET_LEN (C)", do
+    let cw ← leafCount? Gen.cRecs n!"domain_routing" n!"bitmap"
+    let gw ← leafCount? (goRecsFor n!"amd64") n!"stub.bpfDomainRouting" n!"Bitmap"
+    let g ← goC? n!"consts.MaxMatchSetLen"
+    let c ← cC? n!"MAX_MATCH_SET_LEN"
+    pure (cw * 32 == g && gw * 32 == c)),
+  ("routing_map holds MaxMatchSetLen entries", do
+    let m ← mapMax? n!"routing_map"; let g ← goC? n!"consts.MaxMatchSetLen"; pure (m == g)),
+  ("lpm_array_map holds MAX_LPM_NUM >= MaxMatchSetLen tries (Go allocates index % MaxMatchSetLen)", do
+    let m ← mapMax? n!"lpm_array_map"; let g ← goC? n!"consts.MaxMatchSetLen"; let c ← cC? n!"MAX_LPM_NUM"
+    pure (g ≤ m && 0 < g && m == c)),
+  ("outbound_connectivity_map holds 256 * slotsPerOutbound slots", do
+    let m ← mapMax? n!"outbound_connectivity_map"; let g ← goC? n!"control.outboundConnectivitySlotsPerOutbound"
+    pure (m == 256 * g)),
+  ("slotsPerOutbound = 3 * slotsPerDomain", do
+    let a ← goC? n!"control.outboundConnectivitySlotsPerOutbound"; let b ← goC? n!"control.outboundConnectivitySlotsPerDomain"
+    pure (a == 3 * b)),
+  ("TaskCommLen = length of every pname member", do
+    let t ← goC? n!"consts.TaskCommLen"
+    let a ← leafCount? Gen.cRecs n!"routing_result" n!"pname"
+    let b ← leafCount? Gen.cRecs n!"conn_state" n!"pname"
+    let c ← leafCount? Gen.cRecs n!"pid_pname" n!"pname"
+    let d ← leafCount? Gen.cRecs n!"match_set" n!"pname"
+    pure (a == t && b == t && c == t && d * 4 == t)),
+  ("conn_state_map default size", do
+    let m ← mapMax? n!"conn_state_map"; let g ← goC? n!"control.defaultConnStateMapMaxEntries"; pure (m == g)),
+  ("fast_sock placeholder size", do
+    let m ← mapMax? n!"fast_sock"; let g ← goC? n!"control.fastSockPlaceholderMaxEntries"; pure (m == g)),
+  ("listen_socket_map holds the three listener keys", do
+    let m ← mapMax? n!"listen_socket_map"
+    let z ← goC? n!"consts.ZeroKey"; let o ← goC? n!"consts.OneKey"; let t ← goC? n!"consts.TwoKey"
+    pure (z < m && o < m && t < m)),
+  ("bpf_stats_map holds the two overflow counters", do
+    let m ← mapMax? n!"bpf_stats_map"
+    let u ← cC? n!"BPF_STATS_UDP_CONN_OVERFLOW"; let t ← cC? n!"BPF_STATS_TCP_CONN_OVERFLOW"
+    pure (u < m && t < m && u != t)),
+  ("user-defined outbound ids fit below the reserved ones", do
+    let a ← goC? n!"consts.OutboundUserDefinedMax"; let b ← cC? n!"OUTBOUND_MUST_RULES"
+    let c ← goC? n!"consts.OutboundUserDefinedMin"; let d ← cC? n!"OUTBOUND_BLOCK"
+    pure (a + 1 == b && c == d + 1))
 ]
+
+/-! ### Literals and constant keys in Go function bodies -/
+
+/-- What a literal compared with a field of a `bpf*` value means: (Go type, field, C constant it
+mirrors — `n!""` for a plain zero test that mirrors no enumeration). Every regenerated comparison
+must be listed here (`field_literals_agree`). -/
+def fieldLiteralMeaning : List (Name × Name × Name) := [
+  (n!"stub.bpfConnState", n!"State", n!"TCP_STATE_CLOSING"),
+  (n!"stub.bpfConnState", n!"LastSeenNs", n!""),
+  (n!"stub.bpfConnState", n!"Meta.Data.HasRouting", n!""),
+  (n!"stub.bpfRedirectEntry", n!"LastSeenNs", n!""),
+  (n!"stub.bpfPidPname", n!"LastSeenNs", n!""),
+  (n!"stub.bpfRoutingHandoffEntry", n!"LastSeenNs", n!""),
+  (n!"stub.bpfRoutingResult", n!"Mark", n!""),
+  (n!"stub.bpfRoutingResult", n!"Outbound", n!"OUTBOUND_CONTROL_PLANE_ROUTING"),
+  (n!"stub.bpfMatchSet", n!"Type", n!"MatchType_Fallback"),
+  (n!"stub.bpfMatchSet", n!"Not", n!""),
+  (n!"stub.bpfMatchSet", n!"Must", n!"")]
+
+def fieldLiteralOk (l : Name × Name × Int × String) : Bool :=
+  fieldLiteralMeaning.any (fun m =>
+    nameEq m.1 l.1 && nameEq m.2.1 l.2.1 &&
+      (if nameEq m.2.2 n!"" then l.2.2.1 == 0 else lookupConst m.2.2 Gen.cConsts == some l.2.2.1))
+
+/-- Constant keys passed next to a map: `bpf_stats_map` — the key whose result is stored in a variable
+named …udp… / …tcp… is the C enum value of that counter, and every constant key is one of the two;
+`routing_meta_map` — the constant key is `zero_key`; `listen_socket_map` — judged by `listen_key_agree`. -/
+def constKeyOk (c : MapIO) : Bool :=
+  if c.const < 0 then true
+  else if nameEq c.map n!"bpf_stats_map" then
+    (if nameEq c.kind n!"udp" then lookupConst n!"BPF_STATS_UDP_CONN_OVERFLOW" Gen.cConsts == some c.const
+     else if nameEq c.kind n!"tcp" then lookupConst n!"BPF_STATS_TCP_CONN_OVERFLOW" Gen.cConsts == some c.const
+     else lookupConst n!"BPF_STATS_UDP_CONN_OVERFLOW" Gen.cConsts == some c.const
+          || lookupConst n!"BPF_STATS_TCP_CONN_OVERFLOW" Gen.cConsts == some c.const)
+  else if nameEq c.map n!"routing_meta_map" then lookupConst n!"zero_key" Gen.cConsts == some c.const
+  else if nameEq c.map n!"listen_socket_map" then true
+  else false
+
+/-- both counters are read -/
+def statsKeysCovered : Bool :=
+  Gen.goMapIO.any (fun c => nameEq c.map n!"bpf_stats_map" && nameEq c.kind n!"udp" && c.const ≥ 0)
+  && Gen.goMapIO.any (fun c => nameEq c.map n!"bpf_stats_map" && nameEq c.kind n!"tcp" && c.const ≥ 0)
+
+/-! ### Closure of the constant pairing -/
+
+/-- C constants that have no counterpart on the Go side, each with the reason. A C constant must be
+paired (`specConstPairs`, `fixedConstPairs`, `fieldLiteralMeaning`, the stats keys, a limit) or be listed
+here: a NEW `#define`/enum value cannot stay invisible (`every_c_const_classified`). -/
+def cKernelOnlyConsts : List (Name × String) := [
+  (n!"BPF_NO_PRESERVE_ACCESS_INDEX", "compile-time switch of the C program"),
+  (n!"IPV6_BYTE_LENGTH", "address length; the Go side uses netip.Addr.As16()"),
+  (n!"PACKET_HOST", "skb->pkt_type value, kernel only"),
+  (n!"PACKET_OTHERHOST", "skb->pkt_type value, kernel only"),
+  (n!"NOWHERE_IFINDEX", "kernel-internal sentinel"),
+  (n!"MAX_INTERFACE_NUM", "kernel-internal bound"),
+  (n!"MAX_LPM_SIZE", "max_entries of an LPM trie; the Go side copies it from the loaded map spec at run time"),
+  (n!"MAX_REDIRECT_TRACK_NUM", "map size; the janitor reads MaxEntries() from the loaded map"),
+  (n!"MAX_ROUTING_HANDOFF_NUM", "map size; the janitor reads MaxEntries() from the loaded map"),
+  (n!"MAX_COOKIE_PID_PNAME_MAPPING_NUM", "map size; the janitor reads MaxEntries() from the loaded map"),
+  (n!"MAX_DOMAIN_ROUTING_NUM", "map size, not mirrored"),
+  (n!"MAX_ARG_LEN", "process-name lookup buffer, kernel only"),
+  (n!"IPV6_MAX_EXTENSIONS", "parser bound, kernel only"),
+  (n!"NDP_REDIRECT", "ICMPv6 type, kernel only"),
+  (n!"PARSE_FRAGMENT", "parser return code, kernel only"),
+  (n!"HEADER_PULL_SIZE", "parser, kernel only"),
+  (n!"REDIRECT_PULL_SIZE", "parser, kernel only"),
+  (n!"LOAD_REDIRECT_TUPLE_FALLBACK", "kernel-internal return code"),
+  (n!"UDP_CONN_STATE_UPDATE_INTERVAL_NS", "lazy timestamp refresh inside the kernel; the janitor's limits are far above it"),
+  (n!"TCP_CONN_STATE_UPDATE_INTERVAL_NS", "lazy timestamp refresh inside the kernel"),
+  (n!"TCP_STATE_ACTIVE", "the Go side only tests for TCP_STATE_CLOSING"),
+  (n!"DAE_EVENT_BLOCKED", "event ring buffer has no Go consumer at this commit"),
+  (n!"DAE_EVENT_UDP_CONN_OVERFLOW", "event ring buffer has no Go consumer at this commit"),
+  (n!"DAE_EVENT_TCP_CONN_OVERFLOW", "event ring buffer has no Go consumer at this commit"),
+  (n!"ROUTE_STATE_BAD_RULE", "route() scratch flag"),
+  (n!"ROUTE_STATE_GOOD_SUBRULE", "route() scratch flag"),
+  (n!"ROUTE_STATE_MUST", "route() scratch flag"),
+  (n!"ROUTE_STATE_DNS_QUERY", "route() scratch flag")]
+
+/-- C constants tied to the Go side by a check other than a constant pair. -/
+def cConstsTiedElsewhere : List Name :=
+  [n!"MAX_LPM_NUM", n!"BPF_STATS_UDP_CONN_OVERFLOW", n!"BPF_STATS_TCP_CONN_OVERFLOW"]
+  ++ (fieldLiteralMeaning.map (·.2.2)).filter (fun n => !nameEq n n!"")
+
+def cConstClassified (n : Name) : Bool :=
+  (specConstPairs ++ fixedConstPairs).any (fun x => nameEq x.2 n)
+  || nameMem n cConstsTiedElsewhere
+  || cKernelOnlyConsts.any (fun x => nameEq x.1 n)
+
+/-! ### PARAM contents, Go byte order per GOARCH -/
+
+/-- What each member of `struct dae_param` must be initialised from (identifiers that must / must not
+occur in the initialiser of the Go field at the same position). -/
+def paramContents : List (Name × List Name × List Name) := [
+  (n!"tproxy_port", [n!"BigEndianTproxyPort"], []),
+  (n!"control_plane_pid", [n!"Getpid"], []),
+  (n!"dae0_ifindex", [n!"Dae0", n!"Index"], [n!"netnsID", n!"Dae0Peer"]),
+  (n!"dae_netns_id", [n!"netnsID"], [n!"Index"]),
+  (n!"dae0peer_mac", [n!"peerMac"], []),
+  (n!"use_redirect_peer", [n!"useRedirectPeer"], [n!"hasBpfGetCurrentTask"]),
+  (n!"has_bpf_get_current_task", [n!"hasBpfGetCurrentTask"], [n!"useRedirectPeer"]),
+  (n!"dae_socket_mark", [n!"soMarkFromDae"], [])]
+
+def lookupIdents (n : Name) : List (Name × List Name) → Option (List Name)
+  | [] => none
+  | (k, v) :: rest => if nameEq k n then some v else lookupIdents n rest
+
+/-- the Go field at the position of C member `c` -/
+def paramGoField (c : Name) : Option Name :=
+  match findRec n!"real.PARAM" Gen.goPacked with
+  | some r => ((r.leaves.map (·.path)).zip daeParamFieldsC).findSome? (fun x => if nameEq x.2 c then some x.1 else none)
+  | none => none
+
+def paramContentOk (x : Name × List Name × List Name) : Bool :=
+  match paramGoField x.1 with
+  | some g =>
+    match lookupIdents g Gen.goParamInit with
+    | some ids => x.2.1.all (fun r => nameMem r ids) && x.2.2.all (fun f => !nameMem f ids)
+    | none => false
+  | none => false
+
+/-- byte order of the machine for every release GOARCH (hand-written; Go's own list of big-endian
+ports) -/
+def machineBigEndian : List (Name × Bool) := [
+  (n!"amd64", false), (n!"arm64", false), (n!"riscv64", false), (n!"loong64", false), (n!"mips64", true),
+  (n!"mips64le", false), (n!"ppc64", true), (n!"ppc64le", false), (n!"s390x", true), (n!"386", false),
+  (n!"arm", false), (n!"mipsle", false), (n!"mips", true)]
+
+def lookupNameOpt (n : Name) : List (Name × Name) → Option Name
+  | [] => none
+  | (k, v) :: rest => if nameEq k n then some v else lookupNameOpt n rest
+
+def nativeEndianOk (x : Name × Bool) : Bool :=
+  match lookupNameOpt x.1 Gen.goNativeEndian with
+  | some v => nameEq v (if x.2 then n!"big" else n!"little")
+  | none => false
 
 /-! ## 3. Bytes and byte order -/
 
@@ -560,17 +743,36 @@ deriving DecidableEq, Repr
 def NetworkType.effDomain (t : NetworkType) : UdpDomain :=
   if t.l4 ≠ .udp then .unset else if t.udpDomain ≠ .unset then t.udpDomain else .data
 
-/-- `outboundConnectivityDomainIndex` with the Go constants read from the regenerated table. -/
-def goDomainIdx (t : NetworkType) : Nat :=
-  if t.l4 ≠ .udp then goConstNat n!"control.outboundConnectivityDomainTCP"
-  else if t.effDomain = .dns then goConstNat n!"control.outboundConnectivityDomainDnsUDP"
-  else goConstNat n!"control.outboundConnectivityDomainDataUDP"
+/-- the five Go constants of `connectivity.go` -/
+structure ConnConsts where
+  slotsPerOutbound : Nat
+  slotsPerDomain : Nat
+  domTcp : Nat
+  domDns : Nat
+  domData : Nat
+deriving DecidableEq, Repr
+
+/-- read from the regenerated table; `none` if one of them no longer exists -/
+def connConsts? : Option ConnConsts := do
+  let a ← goC? n!"control.outboundConnectivitySlotsPerOutbound"
+  let b ← goC? n!"control.outboundConnectivitySlotsPerDomain"
+  let c ← goC? n!"control.outboundConnectivityDomainTCP"
+  let d ← goC? n!"control.outboundConnectivityDomainDnsUDP"
+  let e ← goC? n!"control.outboundConnectivityDomainDataUDP"
+  pure ⟨a, b, c, d, e⟩
+
+/-- `outboundConnectivityDomainIndex` -/
+def goDomainIdx (k : ConnConsts) (t : NetworkType) : Nat :=
+  if t.l4 ≠ .udp then k.domTcp
+  else if t.effDomain = .dns then k.domDns
+  else k.domData
 
 /-- `outboundConnectivityMapKey` (uint32 arithmetic) -/
-def goConnKey (outbound : Nat) (t : NetworkType) : Nat :=
-  (outbound * goConstNat n!"control.outboundConnectivitySlotsPerOutbound"
-    + goDomainIdx t * goConstNat n!"control.outboundConnectivitySlotsPerDomain"
-    + (if t.ip = .v6 then 1 else 0)) % 2 ^ 32
+def goConnKeyWith (k : ConnConsts) (outbound : Nat) (t : NetworkType) : Nat :=
+  (outbound * k.slotsPerOutbound + goDomainIdx k t * k.slotsPerDomain + (if t.ip = .v6 then 1 else 0)) % 2 ^ 32
+
+def goConnKey? (outbound : Nat) (t : NetworkType) : Option Nat :=
+  connConsts?.map (fun k => goConnKeyWith k outbound t)
 
 /-- `wan_outbound_is_alive`: the slot the kernel reads, `none` when it does not consult the map
 (destination port 53). `dport` is the port number, `ethIsV4` is `skb->protocol == htons(ETH_P_IP)`. -/
@@ -594,19 +796,20 @@ deriving DecidableEq, Repr
 
 /-- `assign_listener`: which `listen_socket_map` key the kernel uses (values of the C statics from the
 regenerated table). -/
-def cListenKey (l4proto : Nat) (ethIsV6 : Bool) : Nat :=
-  if l4proto = 6 then (if ethIsV6 then cConstNat n!"two_key" else cConstNat n!"zero_key") else cConstNat n!"one_key"
+def cListenKey? (l4proto : Nat) (ethIsV6 : Bool) : Option Nat :=
+  if l4proto = 6 then (if ethIsV6 then cC? n!"two_key" else cC? n!"zero_key") else cC? n!"one_key"
 
-def lookupName (n : Name) : List (Name × Name) → Name
-  | [] => n!""
-  | (k, v) :: rest => if nameEq k n then v else lookupName n rest
+/-- the field of the `Listener` each kind of listener lives in -/
+def Listener.field : Listener → Name
+  | .tcp4 => n!"tcp4Listener"
+  | .tcp6 => n!"tcp6Listener"
+  | .udp => n!"packetConn"
 
-/-- which key the control plane stores each listener under: the constant named in the regenerated
-call site `ListenSocketMap.Update(consts.K, uint64(<file>.Fd()), …)` of that listener's file. -/
-def goListenKey : Listener → Nat
-  | .tcp4 => goConstNat (lookupName n!"tcp4File" Gen.goListenUse)
-  | .tcp6 => goConstNat (lookupName n!"tcp6File" Gen.goListenUse)
-  | .udp => goConstNat (lookupName n!"udpFile" Gen.goListenUse)
+/-- which key the control plane stores each listener under: the constant named at the regenerated
+call site `ListenSocketMap.Update(consts.K, uint64(f.Fd()), …)` whose file `f` was duplicated from that
+field of the listener (`f, e := dup…(listener.<field>)`). `none` if no such call site exists. -/
+def goListenKey? (l : Listener) : Option Nat :=
+  (lookupNameOpt l.field Gen.goListenUse).bind goC?
 
 def listenerOfPacket (l4proto : Nat) (ethIsV6 : Bool) : Listener :=
   if l4proto = 6 then (if ethIsV6 then .tcp6 else .tcp4) else .udp
@@ -655,6 +858,32 @@ def cReadIndex (e : Endian) (v : List Nat) : Nat := nativeVal e (v.take 4)
 /-- `match_set->port_range.{port_start,port_end}` -/
 def cReadPortRange (e : Endian) (v : List Nat) : Nat × Nat := (nativeVal e (v.take 2), nativeVal e ((v.drop 2).take 2))
 
+/-- `addL4Proto` / `addIpVersion` / `addDscp`: `Value: [16]byte{byte(v)}` -/
+def goByteValue (v : Nat) : List Nat := [v % 256] ++ zeros 15
+/-- `__u8 mask = match_set->l4proto_type` / `->ip_version`: a 4-byte (non-packed) enum read natively,
+then truncated to 8 bits -/
+def cReadEnumMask (e : Endian) (v : List Nat) : Nat := nativeVal e (v.take 4) % 256
+/-- `match_set->dscp` (`__u8` at offset 0) -/
+def cReadDscp (v : List Nat) : Nat := v.headD 0
+/-- `addProcessName`: the 16 name bytes; `equal16(match_set->pname, pname)` compares two native 8-byte
+loads of each side -/
+def cPnameEqual (e : Endian) (v p : List Nat) : Bool :=
+  nativeVal e (v.take 8) == nativeVal e (p.take 8) && nativeVal e ((v.drop 8).take 8) == nativeVal e ((p.drop 8).take 8)
+
+/-- `rewriteKernRulesWithRingLpmIndex`: the new value of an LPM-indexed rule (`none` = error) -/
+def goRingIndexValue (maxSets old start count : Nat) : Option (List Nat) :=
+  if old ≥ count then none else some (goSetIndexValue (((start + old) % 2 ^ 32) % maxSets))
+
+/-! ### MAC prefix keys -/
+
+/-- `addSourceMac`: the address whose /128 prefix is stored: `copy(addr16[10:], mac[:])` -/
+def goMacAddr16 (mac : List Nat) : List Nat := zeros 10 ++ mac
+/-- the three kernel callers of `route()`: `mac_be = {0, 0, htonl(m0<<8 | m1), htonl(m2<<24 | m3<<16 | m4<<8 | m5)}`
+as it lies in memory -/
+def cMacPack (e : Endian) (m0 m1 m2 m3 m4 m5 : Nat) : List Nat :=
+  zeros 8 ++ nativeBytes e 4 (htonl e (m0 * 256 + m1))
+    ++ nativeBytes e 4 (htonl e (m2 * 2 ^ 24 + m3 * 2 ^ 16 + m4 * 256 + m5))
+
 /-! ### The hand-written key images follow the regenerated layouts -/
 
 /-- (offset, length in bytes) of a leaf of a record of a table -/
@@ -679,7 +908,7 @@ def keyModelsFollowLayout : Bool :=
   && leafSpan g n!"stub.bpfTuplesKey" n!"Sport" == some (32, 2) && leafSpan g n!"stub.bpfTuplesKey" n!"Dport" == some (34, 2)
   && leafSpan g n!"stub.bpfTuplesKey" n!"L4proto" == some (36, 1) && recSize g n!"stub.bpfTuplesKey" == some 40
   && leafSpan c n!"lpm_key" n!"prefixlen" == some (0, 4) && leafSpan c n!"lpm_key" n!"data" == some (4, 16)
-  && recSize c n!"lpm_key" == some 20
+  && recSize c n!"lpm_key" == some 20 && (findMap n!"unused_lpm_type" Gen.cMaps).map (·.keySize) == some 20
   && leafSpan g n!"real._bpfLpmKey" n!"PrefixLen" == some (0, 4) && leafSpan g n!"real._bpfLpmKey" n!"Data" == some (4, 16)
   && recSize g n!"real._bpfLpmKey" == some 20
   && leafSpan c n!"match_set" n!"index" == some (0, 4) && leafSpan c n!"match_set" n!"port_range.port_start" == some (0, 2)
